@@ -36,12 +36,7 @@ Record params := {
   p_growth : nat;            (* GROWTH_FACTOR *)
   p_esize : ekind -> N;      (* get_element_size *)
   p_limit : Z;               (* largest allocation (in cells) assumed to succeed *)
-  (* two behaviours the translator MEASURES on the current code by replaying the witnesses in a sanitized child process
-     (tools/gen/gen_rtparams.py): does dyn_array_clone handle struct arrays (proposed_fixes/C20-clone-struct.diff), does the
-     emitted nl_array_slice clamp length before adding (proposed_fixes/C20-array-slice-clamp.diff).  Both are false on the
-     pinned tree; the model follows whichever code is present. *)
-  p_clone_struct_fixed : bool;
-  p_slice_clamped : bool
+  p_esize_mod : N            (* 256 ^ sizeof(DynArray.elem_size): what an element size is truncated to when stored (measured) *)
 }.
 
 Record dyn := {
@@ -135,7 +130,7 @@ Definition push_struct (P : params) (s : dyn) (bs : list byte) : res :=
             then {| d_kind := EStruct; d_esize := 0; d_len := d_len s; d_cap := d_cap s; d_data := None |} else s in
   if negb (ekind_eqb (d_kind s1) EStruct) then RAbort else
   let s2 := if N.eqb (d_esize s1) 0
-            then {| d_kind := d_kind s1; d_esize := (size mod 256)%N; d_len := d_len s1; d_cap := d_cap s1;
+            then {| d_kind := d_kind s1; d_esize := (size mod p_esize_mod P)%N; d_len := d_len s1; d_cap := d_cap s1;
                     d_data := Some (repeat Uninit (d_cap s1)) |}
             else s1 in
   if negb (N.eqb (d_esize s2) size) then RAbort else
@@ -160,13 +155,13 @@ Fixpoint copy_cells (dst src : list cell) (n : nat) {struct n} : option (list ce
             end
   end.
 
-(* dyn_array_clone: new(elem_type); [repaired code only: a struct array gets the source's elem_size and a block of its
-   own, an empty / unallocated source yields the fresh array]; reserve(new, length); memcpy; new->length = length *)
+(* dyn_array_clone: new(elem_type); a struct array gets the source's elem_size and a block of its own (an empty /
+   unallocated source yields the fresh array); reserve(new, length); memcpy; new->length = length *)
 Definition clone (P : params) (s : dyn) : res :=
-  let fixed_struct := p_clone_struct_fixed P && ekind_eqb (d_kind s) EStruct in
-  if fixed_struct && (Nat.eqb (d_len s) 0 || match d_data s with None => true | Some _ => false end)
+  let is_struct := ekind_eqb (d_kind s) EStruct in
+  if is_struct && (Nat.eqb (d_len s) 0 || match d_data s with None => true | Some _ => false end)
   then ROk (dyn_new P (d_kind s)) OUnit else
-  let n0 := if fixed_struct
+  let n0 := if is_struct
             then {| d_kind := EStruct; d_esize := d_esize s; d_len := 0; d_cap := p_init P; d_data := Some (repeat Uninit (p_init P)) |}
             else dyn_new P (d_kind s) in
   match reserve P n0 (Z.of_nat (d_len s)) with
@@ -235,14 +230,9 @@ Definition slice (P : params) (s : dyn) (start len : Z) : res :=
   let len1 := if (len <? 0)%Z then 0%Z else len in
   let n := Z.of_nat (d_len s) in
   let start2 := if (n <? start1)%Z then n else start1 in
-  if p_slice_clamped P then
-    (* repaired text: if (length > len - start) length = len - start; end = start + length; *)
-    let len2 := if (n - start2 <? len1)%Z then (n - start2)%Z else len1 in
-    slice_loop P s (dyn_new P (d_kind s)) (Z.to_nat start2) (Z.to_nat len2)
-  else
-  if (9223372036854775807 <? start2 + len1)%Z then RCrash else   (* int64_t end = start + length overflows *)
-  let e := if (n <? start2 + len1)%Z then n else (start2 + len1)%Z in
-  slice_loop P s (dyn_new P (d_kind s)) (Z.to_nat start2) (Z.to_nat (e - start2)).
+  (* if (length > len - start) length = len - start; end = start + length;  -- cannot overflow: 0 <= start <= len *)
+  let len2 := if (n - start2 <? len1)%Z then (n - start2)%Z else len1 in
+  slice_loop P s (dyn_new P (d_kind s)) (Z.to_nat start2) (Z.to_nat len2).
 
 Definition step (P : params) (s : dyn) (o : op) : res :=
   match o with
@@ -340,7 +330,7 @@ Definition with_items (s : lst) (l : list cell) : lst := {| l_kind := l_kind s; 
 
 (* operations outside the domain of the sequence specification (see DynArrayProofs: each is either a defect of the
    C code or a caller-controlled allocation size) *)
-Definition struct_size_ok (bs : list byte) : bool := Nat.ltb 0 (length bs) && Nat.ltb (length bs) 256.
+Definition struct_size_ok (P : params) (bs : list byte) : bool := Nat.ltb 0 (length bs) && N.ltb (N.of_nat (length bs)) (p_esize_mod P).
 
 Definition lstep (P : params) (s : lst) (o : op) : lres :=
   match o with
@@ -366,7 +356,7 @@ Definition lstep (P : params) (s : lst) (o : op) : lres :=
   | Reserve n => if (p_limit P <? n)%Z then LExcluded else LOk s OUnit
   | Length => LOk s (OLen (length (l_items s)))
   | Clone =>
-      if (ekind_eqb (l_kind s) EStruct && negb (p_clone_struct_fixed P)) || (p_limit P <? Z.of_nat (length (l_items s)))%Z then LExcluded
+      if (p_limit P <? Z.of_nat (length (l_items s)))%Z then LExcluded
       else if ekind_eqb (l_kind s) EStruct
            then match l_items s with
                 | [] => LOk {| l_kind := EStruct; l_esize := 0; l_items := [] |} OUnit
@@ -378,7 +368,6 @@ Definition lstep (P : params) (s : lst) (o : op) : lres :=
       let b1 := if (b <? 0)%Z then 0%Z else b in
       let n := Z.of_nat (length (l_items s)) in
       let a2 := if (n <? a1)%Z then n else a1 in
-      if negb (p_slice_clamped P) && (9223372036854775807 <? a2 + b1)%Z then LExcluded else
       let e := if (n <? a2 + b1)%Z then n else (a2 + b1)%Z in
       let items := firstn (Z.to_nat (e - a2)) (skipn (Z.to_nat a2) (l_items s)) in
       match l_kind s, items with
@@ -388,7 +377,7 @@ Definition lstep (P : params) (s : lst) (o : op) : lres :=
       | k, _ => LOk {| l_kind := k; l_esize := p_esize P k; l_items := items |} OUnit
       end
   | PushStruct bs =>
-      if negb (struct_size_ok bs) then LExcluded else
+      if negb (struct_size_ok P bs) then LExcluded else
       let size := N.of_nat (length bs) in
       let promote := match l_items s with [] => negb (ekind_eqb (l_kind s) EStruct) | _ => false end in
       if negb promote && negb (ekind_eqb (l_kind s) EStruct) then LAbort else
